@@ -234,9 +234,14 @@ def call(schema, opts):
         return ("exc", "internal:" + type(e).__name__)
 
 
+def ckey(o):
+    """class of the `include_custom_schema_directives` value: 0 / 1 / whitelist"""
+    c = o["include_custom_schema_directives"]
+    return "whitelist" if isinstance(c, (list, tuple)) else "%d" % bool(c)
+
+
 def opts_key(o):
-    return "indent=%r,desc=%d,intro=%d,custom=%d" % (o["indent"], o["include_descriptions"], o["include_introspection"],
-                                                     o["include_custom_schema_directives"])
+    return "indent=%r,desc=%d,intro=%d,custom=%s" % (o["indent"], o["include_descriptions"], o["include_introspection"], ckey(o))
 
 
 def has_apps(text):
@@ -265,7 +270,7 @@ def check_schema(ctx, schema, origin, src, opts_list, h2=False):
         # repeated call, same state history
         r2 = call(schema, opts)
         if r2 != r:
-            ctx.fail("second-call-differs:custom=%d" % opts["include_custom_schema_directives"],
+            ctx.fail("second-call-differs:custom=%s" % ckey(opts),
                      "the second to_string call with the same options returns a different text", dict(detail, first=t1, second=r2[1]))
         # the parser accepts the text
         try:
@@ -303,7 +308,7 @@ def check_schema(ctx, schema, origin, src, opts_list, h2=False):
             if h2:
                 ctx.fail("H2:code-default-omits-defaulted-field", "text is a fixpoint only from the second round", dict(detail, text=t1))
             else:
-                ctx.fail("not-a-fixpoint:%s:custom=%d" % (origin, opts["include_custom_schema_directives"]),
+                ctx.fail("not-a-fixpoint:%s:custom=%s" % (origin, ckey(opts)),
                          "to_string(build(to_string(s))) differs from to_string(s)", dict(detail, first=t1, second=r3[1]))
 
 
@@ -366,6 +371,44 @@ def shared_build(seed, count):
     return schemas
 
 
+def gen_directive_case(ctx):
+    """An SDL-built schema with custom directives APPLIED on members of all kinds (fields, arguments, input fields,
+    enum values) and on types / the schema block; returns (case, names of its custom directives)."""
+    from py_gql import build_schema
+    rng = ctx.rng
+    for _ in range(20):
+        D = sdl.gen_content(rng, rng.choice([1, 2]))
+        if D["directives"]:
+            break
+    else:
+        D["directives"].append({"name": "dir0", "locations": ["FIELD_DEFINITION"], "args": [], "desc": None})
+    items = sdl.permute(rng, sdl.items_of(rng, D, p_ext=rng.choice([0.0, 0.4]), p_dirs=0.55))
+    text = sdl.render(items)
+    names = [d["name"] for d in D["directives"]]
+    return ("sdl-directives", {"sdl": text}, build_schema(text), False), names
+
+
+def _app_site(schema, path):
+    from py_gql.schema import EnumType, InputObjectType
+    if path == "":
+        return "schema"
+    if path.startswith("@"):
+        return "directive-argument"
+    parts = path.split(".")
+    if len(parts) == 1:
+        return "type"
+    if len(parts) == 3:
+        return "argument"
+    t = schema.types.get(parts[0])
+    return "enum-value" if isinstance(t, EnumType) else ("input-field" if isinstance(t, InputObjectType) else "field")
+
+
+def custom_values(rng, names):
+    """values of `include_custom_schema_directives`: booleans and whitelists over the schema's directive names"""
+    pool = [True, True, False, []] + [[n] for n in names] + [list(names), ["nope"], ["deprecated"] + names[:1]]
+    return rng.choice(pool)
+
+
 def rebuild_cases(sources):
     """Live schemas of a list of sources (members of one shared family share their type objects)."""
     fam = {}
@@ -425,7 +468,23 @@ def run_histories(ctx, cases_out):
             ctx.notes.append("histories cut short at %d" % k)
             break
         schemas = []
-        if k % 3 == 2:
+        hist = None
+        if k % 3 == 1:
+            # ONE schema object, printed several times with different `include_custom_schema_directives` values
+            try:
+                case, names = gen_directive_case(ctx)
+            except Exception as e:  # noqa
+                ctx.stat("generator-build-failed:" + type(e).__name__)
+                continue
+            schemas = [case]
+            ctx.stat("history-family:directive-options")
+            hist = [(0, dict(ctx.rng.choice(OPTS), include_introspection=False, include_custom_schema_directives=custom_values(ctx.rng, names)))
+                    for _ in range(ctx.rng.randint(2, 5))]
+            for _, o in hist:
+                ctx.stat("history-custom:" + ckey(o))
+            for path, apps in apps_of(case[2]):
+                ctx.stat("applications-on:" + _app_site(case[2], path))
+        elif k % 3 == 2:
             schemas = gen_shared(ctx)
             ctx.stat("history-family:shared-scalar")
             if ctx.rng.random() < 0.5:
@@ -441,7 +500,8 @@ def run_histories(ctx, cases_out):
                     ctx.stat("generator-build-failed:" + type(e).__name__)
         if not schemas:
             continue
-        hist = [(ctx.rng.randrange(len(schemas)), ctx.rng.choice(OPTS)) for _ in range(ctx.rng.randint(2, 6))]
+        if hist is None:
+            hist = [(ctx.rng.randrange(len(schemas)), ctx.rng.choice(OPTS)) for _ in range(ctx.rng.randint(2, 6))]
         fresh, outs = run_history(ctx, schemas, hist)
         ctx.count(len(hist))
         ctx.stat("history-length:%d" % len(hist))
@@ -450,7 +510,9 @@ def run_histories(ctx, cases_out):
             if f != g:
                 prev_custom = any(o["include_custom_schema_directives"] for _, o in hist[:j])
                 fam = "shared-scalar:" if any("shared" in s[1] for s in schemas) else ""
-                ctx.fail("history-dependent:%safter-custom-call=%d:custom=%d" % (fam, prev_custom, hist[j][1]["include_custom_schema_directives"]),
+                if any(s[0] == "sdl-directives" for s in schemas):
+                    fam = "directive-options:"
+                ctx.fail("history-dependent:%safter-custom-call=%d:custom=%s" % (fam, prev_custom, ckey(hist[j][1])),
                          "call #%d of a history returns a text different from the same call in a fresh state" % (j + 1),
                          {"schemas": [s[1] for s in schemas], "history": [[i, o] for i, o in hist], "index": j,
                           "fresh": f[1], "in_history": g[1]})
@@ -558,7 +620,10 @@ def run_model(ctx, histories):
         ws = [wire_schema(s[2]) for s in schemas]
         reqs.append({"op": "history", "state": kind, "schemas": ws,
                      "calls": [{"schema": i, "indent": (" " * o["indent"]) if isinstance(o["indent"], int) else o["indent"],
-                                "descriptions": o["include_descriptions"], "custom": o["include_custom_schema_directives"]} for i, o in hist]})
+                                "descriptions": o["include_descriptions"], "custom": bool(o["include_custom_schema_directives"]),
+                                "whitelist": (list(o["include_custom_schema_directives"])
+                                              if isinstance(o["include_custom_schema_directives"], (list, tuple)) else None)}
+                               for i, o in hist]})
         expect.append((schemas, hist, outs))
     answers = ctx.driver.ask(reqs)
     for (schemas, hist, outs), a in zip(expect, answers):
@@ -570,7 +635,7 @@ def run_model(ctx, histories):
         for j, (m, r) in enumerate(zip(texts, outs)):
             rt = r[1] if r[0] == "ok" else r[1]
             if m != rt:
-                ctx.fail("corr:print:text:custom=%d" % hist[j][1]["include_custom_schema_directives"],
+                ctx.fail("corr:print:text:custom=%s" % ckey(hist[j][1]),
                          "model and implementation print different texts",
                          {"schemas": [s[1] for s in schemas], "history": [[i, o] for i, o in hist], "index": j, "model": m, "real": rt},
                          kind="correspondence")
